@@ -63,8 +63,25 @@ def generate(tier, seed):
             c['below'] = any(x < lo for x in c['req'])
         if kind == 'conv' and k % 5 == 2:
             c['history'] = True
+        if nap > 1 and not c.get('rdtype') and ((kind == 'conv' and k % 7 == 4) or (kind != 'conv' and k % 3 == 0)):
+            # the table of apertures stored in single precision in cm or pc (as in files read from disk), requests in AU: every
+            # tabulated aperture is a single-precision number of that unit, and `aps` holds their exact values in AU
+            import numpy as np
+            un = rng.choice(['cm', 'cm', 'pc'])
+            new = [float(np.float32(a / LEN[un])) * LEN[un] for a in aps]
+            if len(set(new)) == len(new):
+                mp = dict(zip(aps, new))
+                c['aps'] = new
+                c['req'] = [mp.get(x, x) for x in c['req']]
+                c['tdtype'] = 'float32'
+                if kind == 'conv':
+                    c['tunit'], c['runit'] = un, rng.choice(['AU', 'AU', 'table'])
+                else:
+                    c['sunit'] = un
+                aps, lo, hi = new, new[0], new[-1]
         if kind in ('sed', 'var'):
-            c['sunit'] = rng.choice(['AU', 'AU', 'pc', 'cm'])            # unit in which the SED stores its apertures
+            su = rng.choice(['AU', 'AU', 'pc', 'cm'])            # unit in which the SED stores its apertures
+            c['sunit'] = c.get('sunit', su)
             c['both'] = nap > 1 and rng.random() < 0.5                  # the other interpolation method is called on the same SED object first
         if kind == 'conv' and nap > 1 and not below and k % 8 == 5:
             # the SAME request object is then passed to a second table that reaches further out
@@ -99,7 +116,8 @@ def impl(case):
         tu = u.Unit(case['tunit'])
         flux = np.array([[m[a][0] for a in range(len(aps))] for m in case['val']])
         c = ConvolvedFluxes(wavelength=2.0 * u.micron, model_names=np.array(['m%d' % i for i in range(len(case['val']))]),
-                            apertures=None if len(aps) == 1 and case.get('noap') else (aps / LEN[case['tunit']]) * tu, flux=flux * u.mJy, error=flux * 0.25 * u.mJy)
+                            apertures=None if len(aps) == 1 and case.get('noap') else ((aps / LEN[case['tunit']]).astype(np.float32) if case.get('tdtype') == 'float32' else (aps / LEN[case['tunit']])) * tu,
+                            flux=flux * u.mJy, error=flux * 0.25 * u.mJy)
         ru = tu if case['runit'] == 'table' else u.Unit(case['runit'])
         req = (np.array(case['req']) / LEN[str(ru)]) * ru
         if case.get('rdtype'):
@@ -135,7 +153,7 @@ def impl(case):
     s.wav = np.array(wav) * u.micron
     s.nu = s.wav.to(u.Hz, equivalencies=u.spectral())
     su = case.get('sunit', 'AU')
-    s.apertures = (aps / LEN[su]) * u.Unit(su)
+    s.apertures = ((aps / LEN[su]).astype(np.float32) if case.get('tdtype') == 'float32' else (aps / LEN[su])) * u.Unit(su)
     s.flux = np.array(case['val'][0]) * u.mJy
     s.error = s.flux * 0.25
     if case.get('both') and len(aps) > 1:
